@@ -4,6 +4,9 @@ From Coq Require Import Bool List NArith ZArith Lia.
 From M Require C12Proofs.
 From M Require Tie.
 From M Require C12Latch.
+From M Require CmdLayer.
+From M Require C12Latch.
+From M Require CmdModel.
 From M Require RegModel.
 From M Require RegProofs.
 Import ListNotations.
@@ -95,4 +98,28 @@ Theorem C12_event_bits_sticky :
 Proof. exact (@C12Latch.event_bits_sticky). Qed.
 End T_event_bits_sticky.
 Definition C12_event_bits_sticky := @T_event_bits_sticky.C12_event_bits_sticky.
+
+Module T_event_query_clears. Import CmdLayer. Local Open Scope bool_scope. Local Open Scope Z_scope.
+Import RegModel RegProofs C12Latch CmdModel. Local Open Scope N_scope.
+Theorem C12_event_query_clears :
+  forall s c e k,
+  event_cmd c e k -> Inv s ->
+  let '(s', r) := run_cmd s c in
+  r = Some (rg s e) /\ rg s' e = 0 /\ N.testbit (rg s' STB) k = false /\ Inv s'.
+Proof. exact (@CmdLayer.event_query_clears). Qed.
+End T_event_query_clears.
+Definition C12_event_query_clears := @T_event_query_clears.C12_event_query_clears.
+
+Module T_cls_clears. Import CmdLayer. Local Open Scope bool_scope. Local Open Scope Z_scope.
+Import RegModel RegProofs C12Latch CmdModel. Local Open Scope N_scope.
+Theorem C12_cls_clears :
+  forall s,
+  Inv s ->
+  let s' := fst (run_cmd s KCls) in
+  rg s' ESR = 0 /\ rg s' OPER = 0 /\ rg s' QUES = 0 /\ qlen s' = 0%Z /\
+  N.testbit (rg s' STB) 5 = false /\ N.testbit (rg s' STB) 7 = false /\ N.testbit (rg s' STB) 3 = false /\ N.testbit (rg s' STB) 2 = false /\
+  Inv s'.
+Proof. exact (@CmdLayer.cls_clears). Qed.
+End T_cls_clears.
+Definition C12_cls_clears := @T_cls_clears.C12_cls_clears.
 
